@@ -22,7 +22,7 @@ func init() {
 
 // readThenErr implements E11 for one Read call site.
 // Returns (ok, witness). consume: instructions that deliver buf[:f(n)] onward.
-func readThenErr(fn *ssa.Function, read *ssa.Call) (nConsumers int, bad bool, witness []int, why string) {
+func readThenErr(fn *ssa.Function, read *ssa.Call, exemptEdge func(cnd string, pol bool) bool) (nConsumers int, bad bool, witness []int, why string) {
 	args := argsOf(&read.Call)
 	if len(args) != 1 {
 		return 0, true, nil, "Read call does not have exactly one buffer argument"
@@ -34,18 +34,62 @@ func readThenErr(fn *ssa.Function, read *ssa.Call) (nConsumers int, bad bool, wi
 	}
 	n := ns[0]
 	bufPath := pathOf(buf)
+	isBufSlice := func(v ssa.Value) bool {
+		sl, ok := stripConv(v).(*ssa.Slice)
+		return ok && (sl.X == buf || pathOf(sl.X) == bufPath) && sl.High != nil && dependsOn(sl.High, n)
+	}
+	// carriers: local struct temporaries into which buf[:n] was stored (errBytes{buffer[:n], err})
+	carriers := map[*ssa.Alloc]bool{}
+	eachInstr(fn, func(in ssa.Instruction) {
+		if st, ok := in.(*ssa.Store); ok && isBufSlice(st.Val) {
+			if fa, ok := st.Addr.(*ssa.FieldAddr); ok {
+				if a, ok := fa.X.(*ssa.Alloc); ok && !a.Heap {
+					carriers[a] = true
+				}
+			}
+		}
+	})
+	carries := func(v ssa.Value) bool {
+		if isBufSlice(v) {
+			return true
+		}
+		if u, ok := v.(*ssa.UnOp); ok && u.Op == token.MUL {
+			if a, ok := u.X.(*ssa.Alloc); ok && carriers[a] {
+				return true
+			}
+		}
+		return false
+	}
 	isConsumer := func(in ssa.Instruction) bool {
 		var vals []ssa.Value
 		switch x := in.(type) {
 		case *ssa.Call:
 			vals = x.Call.Args
-			if x.Call.IsInvoke() {
-				vals = x.Call.Args
-			}
 		case *ssa.Send:
-			vals = []ssa.Value{x.X}
+			return carries(x.X)
+		case *ssa.Select:
+			for _, st := range x.States {
+				if st.Dir == 1 && st.Send != nil && carries(st.Send) {
+					return true // offered for delivery
+				}
+			}
+			return false
 		case *ssa.Store:
-			vals = []ssa.Value{x.Val}
+			// retained on the heap: the slice itself, or the count n saved next to a buffer that lives in the object
+			if fa, ok := x.Addr.(*ssa.FieldAddr); ok {
+				if a, isA := fa.X.(*ssa.Alloc); isA && !a.Heap {
+					return false // a local temporary is only a carrier
+				}
+				if isBufSlice(x.Val) {
+					return true
+				}
+				if dependsOn(x.Val, n) {
+					if _, _, isField := fieldOwner(stripLoad(buf)); isField {
+						return true
+					}
+				}
+			}
+			return false
 		case *ssa.Return:
 			// returning n together with err hands the bytes (already in the caller's buffer) to the caller
 			hasN, hasBuf := false, false
@@ -60,11 +104,7 @@ func readThenErr(fn *ssa.Function, read *ssa.Call) (nConsumers int, bad bool, wi
 			return false
 		}
 		for _, v := range vals {
-			sl, ok := stripConv(v).(*ssa.Slice)
-			if !ok {
-				continue
-			}
-			if (sl.X == buf || pathOf(sl.X) == bufPath) && sl.High != nil && dependsOn(sl.High, n) {
+			if carries(v) {
 				return true
 			}
 		}
@@ -85,6 +125,9 @@ func readThenErr(fn *ssa.Function, read *ssa.Call) (nConsumers int, bad bool, wi
 			return true
 		}
 		if c == "("+np+" < 1)" && pol {
+			return true
+		}
+		if exemptEdge != nil && exemptEdge(c, pol) {
 			return true
 		}
 		return false
@@ -135,7 +178,7 @@ func checkC05(c *Ctx) {
 			r.Unk("C05.1", "halfPipe: one Read and one Write", hp.Pos(), fnName(hp), fmt.Sprintf("expected exactly one Read and one Write call in the relay loop, found %d/%d", len(reads), len(writes)))
 		} else {
 			rd, wr := reads[0], writes[0]
-			nc, bad, w, why := readThenErr(hp, rd)
+			nc, bad, w, why := readThenErr(hp, rd, nil)
 			if bad {
 				r.Bad("C05.1", "halfPipe: "+pathOf(recvOf(&rd.Call))+".Read data dropped on error path", rd.Pos(), fnName(hp),
 					why+": when the reader returns (n>0, err) — the DTLS stream does, io.Reader allows it — the final bytes never reach the other side", r.blockPath(hp, w)...)
@@ -537,4 +580,12 @@ func onlyDependsOn(v ssa.Value, allowed map[ssa.Value]bool) bool {
 		return true
 	}
 	return walk(v, 0)
+}
+
+// stripLoad returns the address a value was loaded from (or the value itself).
+func stripLoad(v ssa.Value) ssa.Value {
+	if u, ok := v.(*ssa.UnOp); ok && u.Op == token.MUL {
+		return u.X
+	}
+	return v
 }
